@@ -62,6 +62,16 @@ Proof.
     apply poll_loop_okP; exact Hk.
 Qed.
 
+Lemma acq_new_code_okP : forall q slot oid k kont, code_okP F kont -> code_okP F (acq_new_code q slot oid k kont).
+Proof.
+  intros q slot oid k kont Hk. unfold acq_new_code. apply (atomic_u_okP F HF); [|exact Hk].
+  intros e s e' s' Hr H.
+  destruct (slot_get s q slot) as [[[a b] c]|]; [|discriminate].
+  destruct a; [|discriminate].
+  destruct (on_sem oid s (fun s0 => sem_new_waiter e s0 k)) as [[o [s1 wid]]|]; [|discriminate].
+  inversion H; subst. apply sframe_refl; exact Hr.
+Qed.
+
 Lemma sem_try_code_okP : forall oid k kont,
   (forall r, code_okP F (kont r)) -> code_okP F (sem_try_code oid k kont).
 Proof.
@@ -81,6 +91,36 @@ Proof.
   destruct (on_sem oid s (fun s0 => sem_release e s0 k)) as [[o [e1 s1]]|] eqn:E; [|discriminate].
   inversion H; subst. apply on_sem_inv in E. destruct E as [s0 E].
   eapply sem_release_sframe; [exact Hr|exact E].
+Qed.
+
+Lemma acq_poll_code_okP : forall q slot oid kont, (forall r, code_okP F (kont r)) -> code_okP F (acq_poll_code q slot oid kont).
+Proof.
+  intros q slot oid kont Hk. unfold acq_poll_code. apply (atomic_okP_intro F HF).
+  - intros e s e' s' a Hr H.
+    destruct (slot_get s q slot) as [[[a0 b] c]|]; [|discriminate].
+    destruct a0 as [|p]; [discriminate|]. destruct c; [|discriminate].
+    destruct (on_sem oid s _) as [[o b0]|]; [|discriminate].
+    inversion H; subst. apply sframe_refl; exact Hr.
+  - intros a. destruct a as [|sw [|w [|x l]]]; try apply okP_panic.
+    apply (switch_if_okP F). apply (atomic_okP_intro F HF).
+    + intros e s e' s' a Hr H.
+      destruct (me e) as [m|]; [|discriminate].
+      destruct (on_sem oid s (fun s0 => sem_poll e s0 (N.to_nat w) m)) as [[o [[e1 s1] r]]|] eqn:E; [|discriminate].
+      inversion H; subst. apply on_sem_inv in E. destruct E as [s0 E].
+      eapply sem_poll_sframe; [exact Hr|exact E].
+    + intros r. split_ans; first [apply Hk | apply okP_panic].
+Qed.
+
+Lemma acq_drop_code_okP : forall q slot oid kont, code_okP F kont -> code_okP F (acq_drop_code q slot oid kont).
+Proof.
+  intros q slot oid kont Hk. unfold acq_drop_code. apply (atomic_okP_intro F HF).
+  - intros e s e' s' a Hr H.
+    destruct (slot_get s q slot) as [[[a0 b] c]|]; [|discriminate].
+    destruct a0 as [|p]; [discriminate|].
+    destruct (on_sem oid s (fun s0 => sem_drop_acquire e s0 (Nat.pred (Pos.to_nat p)) (N.eqb c 1))) as [[o [[e1 s1] r]]|] eqn:E; [|discriminate].
+    inversion H; subst. apply on_sem_inv in E. destruct E as [s0 E].
+    eapply sem_drop_acquire_sframe; [exact Hr|exact E].
+  - intros a. split_ans; first [exact Hk | apply okP_panic | (apply sem_release_code_okP; exact Hk)].
 Qed.
 
 Lemma sem_close_code_okP : forall oid kont,
